@@ -142,6 +142,7 @@ def runCase (fields : List String) : String :=
       | .error e => e
       | .ok (m, inp, _, log) =>
         if !inp.isEmpty then "QUEUE-NOT-DRAINED" else
+        if !(getOpt opts "end" true) then showOut m.out ++ " F=" ++ ",".intercalate log.reverse else
         match finish o pol m with
         | .error e => "PANIC " ++ e
         | .ok m => showOut m.out ++ " F=" ++ ",".intercalate log.reverse
